@@ -21,6 +21,7 @@ import (
 	"github.com/echovault/sugardb/internal"
 	"github.com/echovault/sugardb/internal/clock"
 	"github.com/echovault/sugardb/internal/constants"
+	"github.com/echovault/sugardb/verifhook"
 	"io"
 	"net"
 	"strings"
@@ -65,6 +66,7 @@ func (server *SugarDB) getHandlerFuncParams(ctx context.Context, cmd []string, c
 		SwapDBs:               server.SwapDBs,
 		GetServerInfo:         server.GetServerInfo,
 		DeleteKey: func(ctx context.Context, key string) error {
+			verifhook.Yield("ks.deleteKey")
 			server.storeLock.Lock()
 			defer server.storeLock.Unlock()
 			return server.deleteKey(ctx, key)
@@ -168,6 +170,7 @@ func (server *SugarDB) handleCommand(ctx context.Context, message []byte, conn *
 				server.stateMutationInProgress.Store(true)
 				break
 			}
+			verifhook.Spin("mutation.wait")
 		}
 	}
 
@@ -177,12 +180,14 @@ func (server *SugarDB) handleCommand(ctx context.Context, message []byte, conn *
 			return nil, err
 		}
 
+		verifhook.Yield("cmd.after_handler")
 		if internal.IsWriteCommand(command, subCommand) && !replay {
 			server.connInfo.mut.RLock()
 			server.aofEngine.LogCommand(server.connInfo.tcpClients[conn].Database, message)
 			server.connInfo.mut.RUnlock()
 		}
 
+		verifhook.Yield("cmd.after_log")
 		server.stateMutationInProgress.Store(false)
 
 		return res, err
